@@ -22,7 +22,7 @@ RULE = (
     "actor invocations = min(first successful attempt, N+1); already_tried seen at the k-th delivery = k-1 and never > N unless "
     "a force_retry was recorded; each retry requeue carries already_tried+1 and next_execution_time = call instant + policy(k) "
     "(reference implementation of the policy); attempt k+1 starts no earlier than that instant (1 ms); final place acked / dead / "
-    "one delayed successor with counter 0. non-trivial = at least one retry happened; distinct = interleaving digest."
+    "one delayed successor with counter 0. Also: retry policies backing off for 2-14 days (the retry must still be pending 8 s later, on every broker). non-trivial = at least one retry happened; distinct = interleaving digest."
 )
 SHRINK_LISTS = ("jobs",)
 ASSUMPTIONS = ["RabbitMQ runs use one job per run unless all delays are equal (head-only TTL lateness is C05's known finding)"]
@@ -59,7 +59,19 @@ def _ref_chain(j):
     return k, None, forced
 
 
+LONG_US = 86_400_000_000  # back-offs of a day and more are not waited for: the retry must still be pending 8 s later
+
+
 def gen(rng, broker, tier):
+    if rng.random() < 0.07:
+        # a retry policy which backs off for days (an escalation schedule): the pending retry is not released early
+        long_us = rng.choice([2, 2, 7, 14]) * LONG_US + rng.choice([0, 1_500_000, 5_000_000])
+        N = rng.randint(1, 2)
+        j = {"id": "j0", "name": "a0", "queue": "q0", "retries": N, "policy": {"kind": "table", "us": [long_us]},
+             "beh": [{"do": rng.choice(["raise", "hang"]), "dur_us": rng.choice([0, 500])}, {"do": "return", "dur_us": 0}],
+             "timeout_s": 1, "store_result": False, "use_bucket": False, "msg_dep": True}
+        return {"jobs": [j], "tasks_limit": rng.choice([1, 2, 1000]), "observer": None, "long": True,
+                "knobs": {"step_cost": rng.choice([0, 0, 1]), "net": {"lat_lo": 50, "lat_hi": rng.choice([300, 3000]), "frag_p": 0}}}
     n = rng.randint(1, 4) if broker != "rabbit" else 1
     jobs = []
     for i in range(n):
@@ -149,7 +161,8 @@ async def _main(sim, sc, out):
     for j in sc["jobs"]:
         t = 0
         for k in range(1, _ref_chain(j)[0] + 1):
-            t += 1_100_000 + ref_policy(j["policy"], k) + LATE[b] + 20 * lat
+            pk = ref_policy(j["policy"], k)
+            t += 1_100_000 + (pk if pk < LONG_US else 8_000_000) + LATE[b] + 20 * lat
         worst = max(worst, t)
     horizon = t0 + worst + 1_000_000
 
@@ -220,6 +233,22 @@ async def _main(sim, sc, out):
             if t > N and not forced:
                 V.append(violation("counter-exceeds-budget", f"C04/{b}/counter-exceeds-budget", id=jid, tried=t, N=N))
         chain_starts = starts[:len(chain_dels)]
+        pending_long = False
+        for e in requeues:
+            np_ = e.args["params"]
+            if np_["tried"] > 0 and ref_policy(j["policy"], np_["tried"]) >= LONG_US:
+                # a back-off of days: the next attempt must not have been made within this run
+                any_retry = True
+                pending_long = True
+                probe(out, "retry-pending-for-days")
+                nxt = [s for s in starts if s.args.get("attempt") == np_["tried"] + 1]
+                if nxt:
+                    V.append(violation("retry-early", f"C04/{b}/retry-started-early/over-1s", id=jid, k=np_["tried"],
+                                       early_by_us=ref_policy(j["policy"], np_["tried"]) - (nxt[0].us - e.us)))
+                elif place_summary(insp, jid) != "delayed":
+                    V.append(violation("final-place", f"C04/{b}/final-place/retry-pending-for-days-but-{place_summary(insp, jid)}", id=jid))
+        if pending_long:
+            continue
         if len(chain_dels) != expect_invocations:
             if sim.clock.us >= horizon or len(chain_dels) > expect_invocations:
                 V.append(violation(
